@@ -174,8 +174,7 @@ func workerMain(args []string) int {
 		if sc == nil {
 			continue
 		}
-		sc.Prop = p.ID
-		sc.Seed = cs
+		stampScenario(p, sc, cs)
 		st.Cases++
 		st.curDigest = 0
 		if sc.Family != "" && p.ID != "C08" && (p.ID != "C13" || sc.Family == "scale") {
@@ -716,7 +715,7 @@ func replayMain(args []string) int {
 		for i := sq.From; i < sq.To; i += sq.NW {
 			cs := deriveSeed(sq.Seed, p.ID, i)
 			if sc := p.Gen(cs, i, sq.Tier); sc != nil {
-				sc.Prop, sc.Seed = p.ID, cs
+				stampScenario(p, sc, cs)
 				safeRun(p, sc)
 			}
 		}
@@ -725,7 +724,7 @@ func replayMain(args []string) int {
 		if rf.Scenario == nil {
 			return 2
 		}
-		rf.Scenario.Prop, rf.Scenario.Seed = p.ID, cs
+		stampScenario(p, rf.Scenario, cs)
 	}
 	vs := p.Run(rf.Scenario, st)
 	for _, v := range vs {
@@ -794,6 +793,16 @@ func main() {
 	os.Exit(2)
 }
 
+// stampScenario completes a generated scenario: identity, and the caller
+// variant that costs no generator draw (so that adding it moved no random
+// stream): in half of the scenarios the caller calls ctx.Clear() after every
+// poll, as the loop in examples/memkv does.
+func stampScenario(p *Prop, sc *Scenario, cs uint64) {
+	sc.Prop = p.ID
+	sc.Seed = cs
+	sc.Cfg.ClearCtx = (cs>>9)&1 == 1
+}
+
 // genMain prints the scenario generated for (prop, tier, seed, i) — a debugging aid.
 func genMain(args []string) int {
 	fs := flag.NewFlagSet("gen", flag.ExitOnError)
@@ -813,8 +822,7 @@ func genMain(args []string) int {
 		fmt.Println("null")
 		return 0
 	}
-	sc.Prop = p.ID
-	sc.Seed = cs
+	stampScenario(p, sc, cs)
 	b, _ := json.MarshalIndent(sc, "", " ")
 	fmt.Println(string(b))
 	if *run {
